@@ -9,6 +9,7 @@ import (
 	"github.com/hashicorp/raft-wal/segment"
 	"github.com/hashicorp/raft-wal/types"
 
+	"harness/refformat"
 	"harness/sym"
 	"harness/vrt"
 )
@@ -84,7 +85,11 @@ func HarnessGarbageSealed() {
 	}
 	// Open accepted the header: it must be this segment's header
 	vrt.Assert("C11.header-shorter-than-32-rejected", n >= 32)
-	buf, err := r.GetLog(vrt.U64("idx"))
+	// the read index is one of a few concrete values near the base (IndexStart, MinIndex,
+	// MaxIndex and every byte of the file stay symbolic): index-offset arithmetic with two
+	// 64-bit unknowns and a multiplication stalls the solver
+	idx := uint64(5 + vrt.Choice("idx", 3))
+	buf, err := r.GetLog(idx)
 	if err == nil {
 		vrt.Assert("C11.read-bounded", len(buf.Bs) <= n || len(buf.Bs) <= segment.MaxEntrySize)
 		vrt.Reach("getlog-ok")
@@ -208,3 +213,52 @@ var Harnesses = map[string]func(){
 	"HarnessDump":          HarnessDump,
 	"HarnessOpenDamaged":   HarnessOpenDamaged,
 }
+
+// HarnessMutatedFile (C11): a valid segment image (README encoder: two batches,
+// three entries; sealed, or an unsealed tail) with four consecutive bytes at any
+// 4-aligned position overwritten by arbitrary (symbolic) bytes - every header
+// field, frame type, length field, CRC, index slot and payload word in turn -
+// then Open/RecoverTail and GetLog of every index: errors are fine, panics and
+// reads beyond the file are not.
+func HarnessMutatedFile() {
+	w := sym.NewWorld()
+	fs := sym.NewFS(w)
+	sealed := vrt.Param("sealed", 1) == 1
+	p1, p2, p3 := []byte{1, 2, 3}, []byte{4, 5, 6, 7, 8, 9, 10, 11, 12}, []byte{}
+	ref := refformat.Encode(5, 9, 1, [][][]byte{{p1, p2}, {p3}}, sealed)
+	file := append([]byte(nil), ref.File...)
+	pos := 4 * vrt.Choice("pos", len(file)/4)
+	copy(file[pos:pos+4], vrt.Bytes("word", 4))
+	info := types.SegmentInfo{ID: 9, BaseIndex: 5, MinIndex: 5, MaxIndex: 7, Codec: 1, IndexStart: ref.IndexStart, SizeLimit: 4096}
+	if !sealed {
+		info.MaxIndex = 0
+		file = append(file, make([]byte, 64)...)
+	}
+	fs.Put(segment.FileName(info), file)
+	f := segment.NewFiler("d", fs)
+	var r types.SegmentReader
+	if sealed {
+		sr, err := f.Open(info)
+		if err != nil {
+			vrt.Reach("mutated-open-error")
+			return
+		}
+		r = sr
+	} else {
+		sw, err := f.RecoverTail(info)
+		if err != nil {
+			vrt.Reach("mutated-recover-error")
+			return
+		}
+		r = sw
+	}
+	for i := uint64(4); i <= 8; i++ {
+		buf, err := r.GetLog(i)
+		if err == nil {
+			vrt.Assert("C11.mutated-read-bounded-by-file", len(buf.Bs) <= len(file))
+		}
+	}
+	vrt.Reach("mutated-file-checked")
+}
+
+func init() { Harnesses["HarnessMutatedFile"] = HarnessMutatedFile }
